@@ -13,12 +13,6 @@ from vlib import *
 PROPS = ["C06", "C07", "C08", "C09", "C10", "C14", "C15", "C16"]
 
 
-class LibraryPanic(Exception):
-    """the library itself panicked inside a driver process (first frames of the panic are library frames)"""
-    def __init__(self, msg, stack, where):
-        Exception.__init__(self, msg)
-        self.msg, self.stack, self.where = msg, stack, where
-
 MODS = ["Session.tla", "MCSession.tla", "SessionTrace.tla"]
 
 
@@ -33,6 +27,7 @@ NOT_NUMBERS = ["3.", "5 ", " 5", "30.", "1e1", "0x1F", "18446744073709551646", "
 
 def act(a, **kw):
     d = dict(a=a, seq=0, sq="ok", integ="none", hb=0, enc="0", cred=True, id=[], b=0, e=0, ms=0, mid="", midSeq=0, omit="")
+    # ("extra", "empty", "numTxt" are filled in by run_driver unless a generator sets them)
     d.update(kw)
     return d
 
@@ -166,6 +161,17 @@ def gen_systematic():
     the disconnect only after another one; (b) every kind of message crosses the session's own Logout (Logout() or Stop()) on the
     wire before the peer's Logout answer arrives: no second Logout, logout event, context cancelled on the answer."""
     out = []
+    # (e) an idle session whose heartbeats are whole minutes apart, and sends exactly one / sixty minutes after one another
+    for role in ("acceptor", "initiator"):
+        for N in (60, 120):
+            p = Peer()
+            st = logged_on_prefix(role, N, p) + [act("advance", ms=N * 1000 // 2), p("hbt"), act("advance", ms=N * 1000 // 2 + N * 100 + 1), p("hbt"),
+                                                 act("advance", ms=N * 1000 - N * 100 - 1), p("hbt"), act("advance", ms=N * 1000 + N * 100 + 1)]
+            out.append(dict(id="sys-%s-%d-idle-minutes" % (role[0], N), cfg=cfg(role, hbmin=1, hbmax=120, hbcfg=N, closems=1000), steps=st))
+        p = Peer()
+        st = logged_on_prefix(role, 120, p) + [act("advance", ms=7000), act("send"), act("advance", ms=60000), act("send"), p("hbt"), act("advance", ms=3600000 - 60000 - 119000),
+                                               act("send")]
+        out.append(dict(id="sys-%s-sends-minutes-apart" % role[0], cfg=cfg(role, hbmin=1, hbmax=10000, hbcfg=9000, closems=1000), steps=[dict(a, hb=9000) if a["a"] == "logon" else a for a in st]))
     for role in ("acceptor", "initiator"):
         for N in (1, 5, 30):
             T = N * 1000
@@ -226,6 +232,25 @@ def gen_config():
             c["allowed"] = allowed
             out.append(dict(id="cfg-enc-%d" % k, cfg=c, steps=st))
             k += 1
+    # the application registers handlers of its own before the session exists and removes one of them again afterwards
+    for role in ("acceptor", "initiator"):
+        p = Peer()
+        st = logged_on_prefix(role, 30, p) + [p("testreq", id=[71]), p("app"), p("testreq", id=[72]), act("send"), p("logout")]
+        c = cfg(role)
+        c["removeDance"] = True
+        out.append(dict(id="cfg-remove-%s" % role[0], cfg=c, steps=st))
+    # Stop() / Logout() whose Logout cannot be saved: the context is still cancelled at the close timeout
+    for role in ("acceptor", "initiator"):
+        for call in ("stop", "llogout"):
+            for closems in (50, 2000):
+                p = Peer()
+                st = logged_on_prefix(role, 30, p) + [act("advance", ms=10), act(call), act("advance", ms=closems - 1), act("advance", ms=5), act("advance", ms=500)]
+                out.append(dict(id="cfg-%s-unsaved-%s-%d" % (call, role[0], closems), cfg=cfg(role, closems=closems, savefailonly=2), steps=st))
+    # an initiator whose Logon is answered with another heartbeat interval, or none: its own timers keep the interval it asked for
+    for variant, kw in (("other", dict(hb=30)), ("none", dict(hb=0, omit="hb")), ("zero", dict(hb=0))):
+        p = Peer()
+        st = [act("run"), p("logon", **kw), act("advance", ms=1101), p("hbt"), act("advance", ms=1101), act("send"), act("advance", ms=1101)]
+        out.append(dict(id="cfg-ini-answer-hb-%s" % variant, cfg=cfg("initiator", hbcfg=1), steps=st))
     # an initiator configured with a user name only, a password only, neither: its Logon carries exactly what is configured
     for creds in ("useronly", "passonly", "none"):
         p = Peer()
@@ -288,6 +313,23 @@ def gen_lookalike():
                 st.append(p("logon", hb=30))
                 st += [p("hbt"), act("send")]
                 out.append(dict(id="look-%s-%d-%d" % (role[0], gap, variant), cfg=cfg(role), steps=st))
+    # messages that are REJECTED although well formed (not permitted in the current state) or damaged, whose values contain the text
+    # of a framing / header field (the BeginString field as a whole, '34=', '9='): the Reject still refers to the message's own number
+    # a longer tag ending in 35 / 34 with a plausible value AHEAD of the genuine MsgType / MsgSeqNum field, before and after logon
+    for role in ("acceptor", "initiator"):
+        for ex in (5, 6):
+            p = Peer()
+            st = [act("run"), p("app", extra=ex), p("unknown", extra=ex), p("hbt", extra=ex), p("testreq", id=[73], extra=ex), p("logon", hb=30, extra=ex),
+                  p("app", extra=ex), p("testreq", id=[74], extra=ex), p("hbt", extra=ex), p("resend", b=1, e=0, extra=ex), p("logout", extra=ex), p("logon", hb=30, extra=ex)]
+            out.append(dict(id="look-ahead-%s-%d" % (role[0], ex), cfg=cfg(role), steps=st))
+    frag = [b"alice via gw 8=FIX.4.4 relay", b"8=FIX.4.4", b"x\x0234=7", b"9=12", b"8=FIX.4.4\x0234=1", b"34=99 8=FIX.4.4 35=A"]
+    for role in ("acceptor", "initiator"):
+        for i, t in enumerate(frag):
+            p = Peer()
+            st = [act("run"), p("testreq", id=list(t)), p("logout", id=list(t)), p("logon", hb=30), p("testreq", id=list(t), integ="checksum"),
+                  p("testreq", id=list(t), integ="nonnum"), p("logout", id=list(t), integ="bodylength"), p("logon", hb=30), p("testreq", id=list(t)),
+                  p("logout", id=list(t)), p("logout", id=list(t)), p("testreq", id=list(t))]
+            out.append(dict(id="look-rej-%s-%d" % (role[0], i), cfg=cfg(role), steps=st))
     return out
 
 
@@ -321,8 +363,19 @@ def gen_ids(rnd, n):
                 st.append(act("send"))
             elif r < 0.35:
                 st.append(p("app"))
+            if len(idv) > 3000 and rnd.random() < 0.4:
+                # an invalid administrative message with a field longer than any buffer: still one Reject, session undisturbed
+                st.append(p("testreq", id=idv, integ=rnd.choice(["checksum", "bodylength", "nonnum"])))
             st.append(p("testreq", id=idv))
         out.append(dict(id="id-%d" % i, cfg=cfg(role), steps=st))
+    # (the same through every other administrative type: a long Text / unknown field next to the damage)
+    for role in ("acceptor", "initiator"):
+        p = Peer()
+        st = logged_on_prefix(role, 30, p)
+        for integ in ("checksum", "bodylength", "nonnum"):
+            st += [p("testreq", id=list(b"L" * 5000), integ=integ), p("hbt"), p("testreq", id=[65])]
+        st += [p("app", id=list(b"T" * 9000)), p("logout", id=list(b"bye " * 1500))]
+        out.append(dict(id="id-long-damaged-%s" % role[0], cfg=cfg(role), steps=st))
     return out
 
 
@@ -504,7 +557,8 @@ def run_driver(run, binp, scns, name, testname="TestScenarios", extra_env=None):
                     # range of an int (2^64 + 30, 2^63); "" = letters
                     a["numTxt"] = NOT_NUMBERS[(h // 4) % len(NOT_NUMBERS)] if nn and h % 4 in (1, 2) else ""
                     # the same message written differently (an unknown field, header fields in another order): one in four valid ones
-                    a["extra"] = 1 + (h // 8) % 4 if (not nn and a.get("integ", "none") == "none" and a.get("sq", "ok") == "ok" and h % 4 == 3) else 0
+                    if "extra" not in a:
+                        a["extra"] = 1 + (h // 8) % 6 if (not nn and a.get("integ", "none") == "none" and a.get("sq", "ok") == "ok" and h % 4 == 3) else 0
             f.write(json.dumps(sc) + "\n")
     shards = min(NCPU, max(1, len(scns) // 20))
     procs = []
@@ -528,10 +582,9 @@ def run_driver(run, binp, scns, name, testname="TestScenarios", extra_env=None):
             with open(tr + ".log") as f:
                 txt = f.read()
             import re
-            m = re.search(r"^panic: (.*)$", txt, re.M)
-            if m and "DRIVER-ERROR" not in txt and re.search(r"^github\.com/b2broker/simplefix-go[^\n]*\n\t/", txt[m.start():], re.M) \
-                    and "verifharness" not in txt[m.start():m.start() + 4000].split("github.com/b2broker/simplefix-go")[0]:
-                raise LibraryPanic(m.group(1), txt[m.start():m.start() + 3000], name)
+            lc = library_crash(txt)
+            if lc:
+                raise LibraryPanic(lc[0], lc[1], name)
             mh = re.search(r"^LIBRARY-HANG scenario (\S+) did not finish[^\n]*$", txt, re.M)
             if mh:
                 stacks = txt[mh.end():]
@@ -686,6 +739,26 @@ def check(prop, tier, seed):
         import stack_checks
         rejects += stack_checks.check(run, quick, seed)
         run.assumptions_extra = [stack_checks.ASSUMPTION]
+    # C09 ends with "... stops its handler, and the connection is closed": the silent-peer disconnect on a real Acceptor / Initiator
+    # with a scripted connection (harness/wirerig, real time, HeartBtInt 1): serving call returned, socket closed, notification
+    if prop == "C09":
+        import lifecycle_checks
+        lrnd = random.Random(seed)
+        lsc = [x for x in lifecycle_checks.grid(lrnd, False) if x["cause"] == "timer_disconnect" and not x["cause2"]]
+        lsc = lsc[:4] if quick else lsc
+        lbin = go_test_build("./wirerig/", "wirerig.test")
+        ltr = run_driver(run, lbin, lsc, "life", testname="TestLifecycle")
+        lrej = validate(run, ltr, module="LifecycleTrace", mods=["LifecycleTrace.tla"])
+        _, lkn = classify("C13", [r for r in lrej if r[0] == "C13"])   # what is recorded as a finding of C13 is not raised again here
+        known_ids = set()
+        for fid, (entry, cnt) in lkn.items():
+            pass
+        lv, _ = classify("C13", [r for r in lrej if r[0] == "C13"])
+        for r in lv:
+            if r[2] in ("the socket was not closed", "the serving call did not return", "no disconnect / stopped notification was delivered"):
+                rejects.append(["C09", r[1], "after the silent-peer disconnect: " + r[2], r[3]])
+        run.extra["silent_peer_disconnect_on_a_connection"] = len(lsc)
+        run.traces += len(lsc)
     # the untimed histories of the pool over a real connection (real Acceptor / Initiator + session, raw TCP peer)
     if prop in ("C06", "C07", "C10", "C14", "C15", "C16"):
         import stack_checks
